@@ -597,8 +597,103 @@ func chunkedCall(endpoint string, rng *rand.Rand, result interface{}, method str
 	return reply.Response.UnmarshalResult(result)
 }
 
+// c17SlowReader: the stream codec over a connection (net.Pipe: the fakecluster and ServePipe use
+// it; TCP connections offer the same interface) whose reader stops reading in the middle of a
+// message for longer than any timeout a writer might have, then resumes. Every message whose
+// write was reported as done arrives once, intact, in order -- also the ones written after the
+// stall; a write that was reported as failed may be missing, but it leaves no debris in front of
+// the messages that follow it.
+type prefixConn struct {
+	io.Reader
+	net.Conn
+}
+
+func (p prefixConn) Read(b []byte) (int, error) { return p.Reader.Read(b) }
+
+func c17SlowReader(ctx *Ctx, i int, stall time.Duration) {
+	rng := ctx.Sub(i)
+	c1, c2 := net.Pipe()
+	defer c1.Close()
+	defer c2.Close()
+	wc := jsonrpc2.IOCodec(c1)
+	var msgs []*jsonrpc2.Message
+	for k := 0; k < 5; k++ {
+		msgs = append(msgs, genMessage(rng, k+1, false))
+	}
+	type wres struct {
+		k    int
+		err  error
+		took time.Duration
+	}
+	results := make(chan wres, len(msgs))
+	go func() {
+		for k, m := range msgs {
+			t0 := time.Now()
+			err := wc.WriteMessage(m)
+			results <- wres{k, err, time.Since(t0)}
+		}
+		close(results)
+	}()
+	// the reader takes a few bytes of the first message and then nothing for a while
+	head := make([]byte, 1+rng.Intn(6))
+	if _, err := io.ReadFull(c2, head); err != nil {
+		fatal("slow reader: %v", err)
+	}
+	time.Sleep(stall)
+	rc := jsonrpc2.IOCodec(prefixConn{io.MultiReader(bytes.NewReader(head), c2), c2})
+	var got [][]byte
+	var readErr string
+	c2.SetReadDeadline(time.Now().Add(4 * time.Second))
+	for len(got) < len(msgs) {
+		m, err := rc.ReadMessage()
+		if err != nil {
+			readErr = err.Error()
+			break
+		}
+		got = append(got, canon(m))
+	}
+	c1.Close()
+	var mon []string
+	var acked [][]byte
+	var log []string
+	for r := range results {
+		log = append(log, fmt.Sprintf("message %d: write returned %v after %s", r.k+1, r.err, r.took.Round(time.Millisecond)))
+		if r.err == nil {
+			acked = append(acked, canon(msgs[r.k]))
+		}
+	}
+	// the messages read must contain the acknowledged ones, in order, each once, and nothing that
+	// was not written
+	written := map[string]int{}
+	for k, m := range msgs {
+		written[string(canon(m))] = k + 1
+	}
+	pos := 0
+	for _, g := range got {
+		if written[string(g)] == 0 {
+			mon = append(mon, fmt.Sprintf("c17-slow-reader: after a reader stall of %s in the middle of a message, the reader received %q, which nobody wrote", stall, string(g)))
+			break
+		}
+		if pos < len(acked) && string(acked[pos]) == string(g) {
+			pos++
+		}
+	}
+	if len(mon) == 0 && pos < len(acked) {
+		mon = append(mon, fmt.Sprintf("c17-slow-reader: the reader stopped for %s in the middle of the first message and then went on reading; %d writes were reported as done, %d of them were received intact (the reader ended with %q). Writes: %s", stall, len(acked), pos, readErr, strings.Join(log, "; ")))
+	}
+	ctx.Emit(Case{I: i, Kind: "slow-reader", Desc: map[string]interface{}{"stall_ms": stall.Milliseconds(), "writes": log, "received": len(got)}, Monitor: mon})
+}
+
 func runC17(ctx *Ctx) {
 	n := ctx.N(300, 8000)
+	var slow sync.WaitGroup
+	for c, d := range []time.Duration{10500 * time.Millisecond, 1200 * time.Millisecond} {
+		if ctx.Want(n + 900 + c) {
+			slow.Add(1)
+			go func(c int, d time.Duration) { defer slow.Done(); c17SlowReader(ctx, n+900+c, d) }(c, d)
+		}
+	}
+	defer slow.Wait()
 	forEachCase(ctx, n, func(i int, rng *rand.Rand) { c17Stream(ctx, i, rng, i%10 == 9) })
 	extra := ctx.N(12, 120)
 	for c := 0; c < extra; c++ {
